@@ -33,19 +33,33 @@ def run(rep, kf, tier, seed):
             r = core.Report("C11", tier, seed)
             t0 = time.time()
             why = boundedchecks.mypy_violation(which)
+            known = None
+            if why and kf is not None and kf.get("C11-K1-literal-enum-redundant-cast") is not None:
+                # every literal-enum module fails warn_redundant_casts under the installed mypy (listed finding): the package is
+                # judged on the remaining errors -- only while the listed witness still fails natively
+                from pyvc.core import run_native
+                e = kf.get("C11-K1-literal-enum-redundant-cast")
+                if run_native(e["replay"]).get("violates"):
+                    rest = boundedchecks.mypy_unlisted_violation(which)
+                    if rest != why:
+                        known = e
+                        why = rest
             ob = Obligation(id=f"C11.bounded.mypy[{which}]", props=["C11"], unit="generated schematic package", bounded=True,
                             backend="mypy (repository settings)", time_s=time.time() - t0,
                             formula=f"the schematic package '{which}' passes mypy under the repository's [tool.mypy] settings   [bounded]",
-                            status=PROVED if why is None else REFUTED, detail=why or "no errors")
+                            status=PROVED if why is None else REFUTED,
+                            detail=why or ("no errors" + (" outside the listed finding C11-K1" if known else "")))
+            if known is not None and (known["id"], known["what"]) not in r.known_lines:
+                r.known_lines.append((known["id"], known["what"]))
             if why:
-                ob.witness = {"kind": "call", "qualname": "pyvc.boundedchecks:mypy_violation", "args": [], "kwargs": {"which": which},
-                              "violates": "result is not None"}
+                ob.witness = {"kind": "call", "qualname": "pyvc.boundedchecks:" + ("mypy_unlisted_violation" if known else "mypy_violation"),
+                              "args": [], "kwargs": {"which": which}, "violates": "result is not None"}
             r.add(ob)
             r.bounded.append({"id": ob.id, "bound": "one schematic package (every kind x required/optional x nullable x position, depth <= 2)",
                               "violations": 0 if why is None else 1})
             return r
         return f
-    which = ["models", "endpoints"] + (["models-literal"] if tier == "thorough" else [])
+    which = ["models", "endpoints", "models-literal"]
     for r in core.run_parallel([mypy_task(w) for w in which]):
         rep.merge(r)
     rep.trusted.extend(["pyvc Engine B", "mypy 2.3.1 with the repository's settings (dateutil stubs are not installed: "
